@@ -498,9 +498,16 @@ func (h *History) CheckC11Control(res *Result) []Violation {
 			}
 		}
 	}
+	// A force stop during start-up can reach a plugin's Teardown while its Open is still in
+	// progress: the teardown is then logged before the open of the SAME instance. Such an
+	// instance is closed, not live.
+	tornEarly := map[inst]bool{}
 	for i, e := range h.Events {
 		switch {
 		case isOpen(e.Kind) && e.Info == "":
+			if tornEarly[inst{e.Comp, e.Inst}] {
+				continue
+			}
 			open[inst{e.Comp, e.Inst}] = i
 			live[e.Comp]++
 			if live[e.Comp] > 1 {
@@ -511,6 +518,8 @@ func (h *History) CheckC11Control(res *Result) []Violation {
 			if _, ok := open[inst{e.Comp, e.Inst}]; ok {
 				delete(open, inst{e.Comp, e.Inst})
 				live[e.Comp]--
+			} else {
+				tornEarly[inst{e.Comp, e.Inst}] = true
 			}
 		}
 	}
